@@ -14,11 +14,14 @@ Definition fu := (float * string)%type.
 Record row := { r_time : fu; r_pos : list fu; r_spd : list fu; r_acc : list fu; r_tq : list fu; r_dtq : list fu; r_ltq : list fu; r_pwm : float; r_cur : option fu }.
 (** what gearpy did: returned, with the history on record at the end and the solver's flag; or raised, with the instants it had
     completely recorded since the last reset *)
+(** per element and per recorded variable: the largest magnitude gearpy recorded in the scenario (the natural scale of rounding noise) *)
+Record scales := { z_pos : list float; z_spd : list float; z_acc : list float; z_tq : list float; z_dtq : list float; z_ltq : list float; z_cur : float }.
 Inductive expect := EHist (rows : list row) (locked : option bool) | EErr (e : exn) (part : list row).      (* locked: the solver's private flag when it can be read *)
 
 Record scase := { k_chain : @chain FX; k_load : @loadexpr FX; k_pos0 : fqty; k_spd0 : fqty; k_ops : list (@sop FX);
                   k_more : list (@loadexpr FX * list (@sop FX));      (* further segments after the user re-declared the external torque *)
                   k_pre : list (list row);                               (* the history gearpy had on record at each reset it executed *)
+                  k_scales : scales;
                   k_expect : expect }.
 Fixpoint exec_segs (c : @chain FX) (segs : list (@loadexpr FX * list (@sop FX))) (st : @sys FX) : res (@sys FX) :=
   match segs with
@@ -34,30 +37,38 @@ Definition f_close (x y : float) : bool :=
 Section Mode.
 Variable tol : bool.
 Definition f_eq (x y : float) : bool := if tol then f_close x y else fbits_eq x y.
+(** within 1e-9 of the values themselves or of the variable's scale [z] in the scenario (a difference of nearly equal numbers is
+    exact to rounding of its operands, not of itself) *)
+Definition f_eqz (z x y : float) : bool :=
+  if tol then f_close x y || PrimFloat.leb (PrimFloat.abs (PrimFloat.sub x y)) (PrimFloat.mul 0x1.12e0be826d695p-30 z) else fbits_eq x y.
 Definition fu_eqb (q : fqty) (x : fu) : bool := f_eq (qv q) (fst x) && String.eqb (qu q) (snd x).
-Fixpoint fus_eqb (l : list fqty) (x : list fu) : bool :=
-  match l, x with [], [] => true | q :: l', y :: x' => fu_eqb q y && fus_eqb l' x' | _, _ => false end.
-Definition last_fu_eqb (l : list fqty) (x : list fu) : bool :=
-  match rev l, rev x with q :: _, y :: _ => fu_eqb q y | [], [] => true | _, _ => false end.
+Definition fu_eqz (z : float) (q : fqty) (x : fu) : bool := f_eqz z (qv q) (fst x) && String.eqb (qu q) (snd x).
+Fixpoint fus_eqb (zs : list float) (l : list fqty) (x : list fu) : bool :=
+  match l, x with
+  | [], [] => true
+  | q :: l', y :: x' => fu_eqz (hd 0%float zs) q y && fus_eqb (tl zs) l' x'
+  | _, _ => false end.
+Definition last_fu_eqb (zs : list float) (l : list fqty) (x : list fu) : bool :=
+  match rev l, rev x with q :: _, y :: _ => fu_eqz (last zs 0%float) q y | [], [] => true | _, _ => false end.
 (** code of the first differing field of one instant: 0 = none; 2/3/4 = position/speed/acceleration of an upstream element
     while the last element's agrees; 22/23/24 = the last element's differs *)
-Definition row_code (t : fqty) (s : @snap FX) (r : row) : N :=
+Definition row_code (z : scales) (t : fqty) (s : @snap FX) (r : row) : N :=
   if negb (fu_eqb t (r_time r)) then 1 else
-  if negb (last_fu_eqb (s_pos s) (r_pos r)) then 22 else
-  if negb (fus_eqb (s_pos s) (r_pos r)) then 2 else
-  if negb (last_fu_eqb (s_spd s) (r_spd r)) then 23 else
-  if negb (fus_eqb (s_spd s) (r_spd r)) then 3 else
-  if negb (fus_eqb (s_ltq s) (r_ltq r)) then 7 else
+  if negb (last_fu_eqb (z_pos z) (s_pos s) (r_pos r)) then 22 else
+  if negb (fus_eqb (z_pos z) (s_pos s) (r_pos r)) then 2 else
+  if negb (last_fu_eqb (z_spd z) (s_spd s) (r_spd r)) then 23 else
+  if negb (fus_eqb (z_spd z) (s_spd s) (r_spd r)) then 3 else
+  if negb (fus_eqb (z_ltq z) (s_ltq s) (r_ltq r)) then 7 else
   if negb (f_eq (s_pwm s) (r_pwm r)) then 8 else
-  if negb (fus_eqb (s_dtq s) (r_dtq r)) then 6 else
-  if negb (fus_eqb (s_tq s) (r_tq r)) then 5 else
-  if negb (last_fu_eqb (s_acc s) (r_acc r)) then 24 else
-  if negb (fus_eqb (s_acc s) (r_acc r)) then 4 else
-  if negb (match s_cur s, r_cur r with None, None => true | Some q, Some x => fu_eqb q x | _, _ => false end) then 9 else 0.
-Fixpoint rows_code (h : list (fqty * @snap FX)) (rs : list row) (i : N) : N * N :=     (* (code, instant index) *)
+  if negb (fus_eqb (z_dtq z) (s_dtq s) (r_dtq r)) then 6 else
+  if negb (fus_eqb (z_tq z) (s_tq s) (r_tq r)) then 5 else
+  if negb (last_fu_eqb (z_acc z) (s_acc s) (r_acc r)) then 24 else
+  if negb (fus_eqb (z_acc z) (s_acc s) (r_acc r)) then 4 else
+  if negb (match s_cur s, r_cur r with None, None => true | Some q, Some x => fu_eqz (z_cur z) q x | _, _ => false end) then 9 else 0.
+Fixpoint rows_code (z : scales) (h : list (fqty * @snap FX)) (rs : list row) (i : N) : N * N :=     (* (code, instant index) *)
   match h, rs with
   | [], [] => (0, 0)%N
-  | (t, s) :: h', r :: rs' => let c := row_code t s r in if N.eqb c 0 then rows_code h' rs' (N.succ i) else (c, i)
+  | (t, s) :: h', r :: rs' => let c := row_code z t s r in if N.eqb c 0 then rows_code z h' rs' (N.succ i) else (c, i)
   | _, _ => (11, i)%N
   end.
 (** ** the same operations keeping the state reached when an instant raises.  Used only to ATTRIBUTE a disagreement in which the
@@ -125,15 +136,15 @@ Fixpoint exec_segs_t (c : @chain FX) (segs : list (@loadexpr FX * list (@sop FX)
       end
   end.
 (** first differing field over the instants both sides have *)
-Fixpoint rows_code_common (h : hist) (rs : list row) (i : N) : N * N :=
+Fixpoint rows_code_common (z : scales) (h : hist) (rs : list row) (i : N) : N * N :=
   match h, rs with
-  | (t, s) :: h', r :: rs' => let c := row_code t s r in if N.eqb c 0 then rows_code_common h' rs' (N.succ i) else (c, i)
+  | (t, s) :: h', r :: rs' => let c := row_code z t s r in if N.eqb c 0 then rows_code_common z h' rs' (N.succ i) else (c, i)
   | _, _ => (0, 0)%N
   end.
 (** the histories at the resets both sides executed: first difference (complete comparison, lengths included) *)
-Fixpoint first_diff (hs : list hist) (pre : list (list row)) : option (N * N) :=
+Fixpoint first_diff (z : scales) (hs : list hist) (pre : list (list row)) : option (N * N) :=
   match hs, pre with
-  | h :: hs', p :: pre' => let ci := rows_code h p 0 in if N.eqb (fst ci) 0 then first_diff hs' pre' else Some ci
+  | h :: hs', p :: pre' => let ci := rows_code z h p 0 in if N.eqb (fst ci) 0 then first_diff z hs' pre' else Some ci
   | _, _ => None
   end.
 Definition exn_code (e : exn) : N :=
@@ -142,7 +153,7 @@ Definition exn_code (e : exn) : N :=
 Definition case_code (k : scase) : N * N :=
   match exec_segs_t (k_chain k) ((k_load k, k_ops k) :: k_more k) (initial (k_pos0 k) (k_spd0 k)) [] with
   | (stp, e, hs) =>
-      match first_diff hs (k_pre k) with
+      match first_diff (k_scales k) hs (k_pre k) with
       | Some ci => ci
       | None =>
           let cur := rev (y_hist stp) in
@@ -153,18 +164,18 @@ Definition case_code (k : scase) : N * N :=
           match e, k_expect k with
           | None, EHist rows locked =>
               if negb (Nat.eqb nh np) then (11, 0)%N else
-              let ci := rows_code cur rows 0 in
+              let ci := rows_code (k_scales k) cur rows 0 in
               if negb (N.eqb (fst ci) 0) then ci else
               match locked with Some b => if Bool.eqb (y_locked stp) b then (0, 0)%N else (10, 0)%N | None => (0, 0)%N end
           | None, EErr _ part =>                      (* gearpy raised, the model did not: compare what gearpy had recorded in that segment *)
-              let ci := if Nat.eqb nh np then rows_code_common cur part 0 else rows_code_common (nth np hs []) part 0 in
+              let ci := if Nat.eqb nh np then rows_code_common (k_scales k) cur part 0 else rows_code_common (k_scales k) (nth np hs []) part 0 in
               if negb (N.eqb (fst ci) 0) then ci else (13, 0)%N
           | Some x, EErr e' _ =>
-              let ci := if Nat.leb nh np then rows_code_common cur mine 0 else (0, 0)%N in
+              let ci := if Nat.leb nh np then rows_code_common (k_scales k) cur mine 0 else (0, 0)%N in
               if negb (N.eqb (fst ci) 0) then ci else
               if Nat.eqb nh np && exn_eqb x e' then (0, 0)%N else (12, 0)%N
           | Some x, EHist _ _ =>                      (* the model raised, gearpy returned *)
-              let ci := if Nat.leb nh np then rows_code_common cur mine 0 else (0, 0)%N in
+              let ci := if Nat.leb nh np then rows_code_common (k_scales k) cur mine 0 else (0, 0)%N in
               if negb (N.eqb (fst ci) 0) then ci else (14, exn_code x)%N
           end
       end
@@ -172,11 +183,17 @@ Definition case_code (k : scase) : N * N :=
 End Mode.
 
 (** the code reported for a scenario: the bit-for-bit comparison decides whether there is a disagreement; when there is one in a recorded
-    FIELD (codes 1..9, 22..24) and the whole scenario agrees within 1e-9 relative, 100 is added to the code (rounding-level disagreement) *)
+    FIELD (codes 1..9, 22..24) and the whole scenario agrees within 1e-9 relative, 100 is added to the code (rounding-level disagreement);
+    200 when it agrees within rounding up to the point where a discrete decision (exception, flag, number of instants) comes out differently *)
 Definition is_field (c : N) : bool := (N.leb 1 c && N.leb c 9) || (N.leb 22 c && N.leb c 24).
 Definition case_code2 (k : scase) : N * N :=
   let c := case_code false k in
-  if is_field (fst c) then (if N.eqb (fst (case_code true k)) 0 then (N.add 100 (fst c), snd c) else c) else c.
+  if is_field (fst c) then
+    let ct := fst (case_code true k) in
+    if N.eqb ct 0 then (N.add 100 (fst c), snd c)
+    else if negb (is_field ct) then (N.add 200 (fst c), snd c)      (* within rounding up to a discrete divergence (an exception, a flag, a length) *)
+    else c
+  else c.
 Fixpoint failing_from (i : N) (l : list scase) : list (N * (N * N)) :=
   match l with
   | [] => []
@@ -209,8 +226,10 @@ Definition mcase_code (k : mcase) : N :=
   match r, mc_exp k with
   | Ok (d, c), MOk T cur =>
       let cmp (tol : bool) : N :=
-        if negb (fu_eqb tol d T) then 6%N
-        else if match c, cur with None, None => true | Some q, Some x => fu_eqb tol q x | _, _ => false end then 0%N else 9%N in
+        let zt := PrimFloat.abs (qv (m_Tmax (mc_motor k))) in
+        let zi := match m_imax (mc_motor k) with Some i => PrimFloat.abs (qv i) | None => 0%float end in
+        if negb (fu_eqz tol zt d T) then 6%N
+        else if match c, cur with None, None => true | Some q, Some x => fu_eqz tol zi q x | _, _ => false end then 0%N else 9%N in
       let c0 := cmp false in
       if N.eqb c0 0 then 0 else if N.eqb (cmp true) 0 then N.add 100 c0 else c0
   | Err e, MErr e' => if exn_eqb e e' then 0 else 12
